@@ -172,6 +172,12 @@ def run(ctx):
         a2 = a1 + [FORMAT_ARGS[k].replace("@FFOUT@", ffout) for k in toggled]
         jobs.append({"kind": "format", "input1": text, "input2": text, "args1": a1, "args2": a2, "toggled": toggled,
                      "what": f"{inp} {base} ff={ff} toggled={toggled} ffout={ffout if 'ffout' in toggled else None}"})
+        if not ctx.quick:
+            # thorough: the same pair on the other inputs as well
+            for other in ("two-chains-pro", "cterm_hid", "reassigned"):
+                if other != inp and not (other == "cterm_hid" and base == "propka"):
+                    jobs.append({"kind": "format", "input1": texts.get(other, cterm), "input2": texts.get(other, cterm), "args1": a1, "args2": a2,
+                                 "toggled": toggled, "what": f"{other} {base} ff={ff} toggled={toggled} ffout={ffout if 'ffout' in toggled else None}"})
     # chain identifiers re-assigned by pdb2pqr (hidden chain end, waters without chain id): --keep-chain must not reorder
     for base in ("default", "nodebump-noopt"):
         for toggled in (["keepChain"], ["keepChain", "whitespace"], ["keepChain", "ffout"]):
